@@ -197,6 +197,11 @@ def plan(tier, seed):
             h = ([['push', s1]] if s1 else []) + [['mkinvc']] + ([['pop']] if s1 else [])
             h += ([['push', s2]] if s2 else []) + [['redinv', 0], ['readinv', 0]] + ([['pop']] if s2 else []) + [['readinv', 0], ['applyc', 0]]
             pair_hist.append(h)
+    for s1 in SETTINGS:   # many independently inverted blocks created inside a block (and inside two nested ones)
+        for nblk in (1, 2, 7, 8, 9, 16, 33):
+            for as_dict in (False, True):
+                pair_hist.append([['push', s1], ['mkinvblk', nblk, as_dict], ['pop']])
+        pair_hist.append([['push', 'A'], ['push', s1], ['mkinvblk', 12, False], ['pop'], ['mkinvblk', 8, True], ['pop']])
     seen_h = {repr(c) for c in cases}
     pair_hist = [h for h in pair_hist if repr(h) not in seen_h]
     phases.append({'name': 'histories_pairs', 'target': TARGET, 'cases': pair_hist, 'x64': False, 'chunk': 6})
@@ -392,6 +397,16 @@ def interpret(hist, problems, obs=None, ev=None, api=None, init_stack=(), spawn_
                 expect('captured at creation', got, model_fp(stack))
                 if obs is not None:
                     obs.append(('mkinv', got))
+            elif e[0] == 'mkinvblk':   # block-diagonal operator of e[1] solver-inverted blocks (list, or dict when e[2]): one capture per block
+                from furax._base.blocks import BlockDiagonalOperator
+                from furax._base.core import InverseOperator
+
+                blocks = [S] * e[1] if not e[2] else {f'b{k}': S for k in range(e[1])}
+                binv = BlockDiagonalOperator(blocks).I
+                leaves = [b for b in jax.tree.leaves(binv.blocks, is_leaf=lambda x: isinstance(x, InverseOperator)) if isinstance(b, InverseOperator)]
+                expect('number of lazily inverted blocks', len(leaves), e[1])
+                for k, b in enumerate(leaves):
+                    expect(f'configuration captured by block {k} of {e[1]}', fp(b.config), model_fp(stack))
             elif e[0] == 'mkinvc':   # inverse of a composite (a sum: its reduce() always returns a new object)
                 inv = W['SC'].I
                 invs.append((inv, tuple(stack)))
